@@ -44,3 +44,11 @@ theorem krylov_exact (A : Matrix n n K) (T : Matrix m m K) (V : Matrix n m K) (h
   rw [Matrix.mulVec_smul, Matrix.mulVec_mulVec, poly_intertwine A T V h p, ← Matrix.mulVec_mulVec]
 
 end RenoVerif.Krylov
+
+namespace RenoVerif.Krylov
+open Matrix
+/-- non-vacuity: a diagonal operator with the full identity basis (`V = 1`, `T = A`) closes the recurrence -/
+example (A : Matrix (Fin 3) (Fin 3) ℚ) (p : Polynomial ℚ) (e : Fin 3 → ℚ) :
+    (Polynomial.aeval A p) *ᵥ ((2 : ℚ) • ((1 : Matrix (Fin 3) (Fin 3) ℚ) *ᵥ e)) = (2 : ℚ) • ((1 : Matrix (Fin 3) (Fin 3) ℚ) *ᵥ ((Polynomial.aeval A p) *ᵥ e)) :=
+  krylov_exact A A 1 (by simp) p e 2
+end RenoVerif.Krylov
